@@ -170,6 +170,7 @@ package basic
 //@   ensures[C02,C03] r.faultfree && old(r.len) - old(r.pos) >= 4 && le32(r.data, old(r.pos)) <= 10485760 && old(r.len) - old(r.pos) >= 4 + le32(r.data, old(r.pos)) ==> err == nil
 //@   ensures[C07] old(r.len) - old(r.pos) >= 4 && le32(r.data, old(r.pos)) > 10485760 ==> err != nil
 //@   ensures[C07] r.pos <= old(r.pos) + 4 + 10485760
+//@   ensures[C02] err != nil && r.pos == old(r.pos) ==> r.short
 
 //@ func WriteString(s string, w io.Writer) (err error)
 //@   tags C02 C03
